@@ -82,12 +82,15 @@ class WebsocketSession(object):
             if self._sock is None:
                 log.debug('WebSocket unavailable; data not sent')
                 raise errors.WebSocketUnavailable('not connected')
-            if self.websocket.is_closed:
-                log.debug('WebSocket closed; data not sent')
-                raise errors.WebSocketClosed('data not sent')
+            # Check closing before closed (the websocket sets closed
+            # before it clears closing), another thread must never see
+            # the websocket as neither closing nor closed after a close
             if self.websocket.is_closing:
                 log.debug('WebSocket closing; data not sent')
                 raise errors.WebSocketClosing('data not sent')
+            if self.websocket.is_closed:
+                log.debug('WebSocket closed; data not sent')
+                raise errors.WebSocketClosed('data not sent')
             try:
                 self._sock.sendall(data)
             except socket.error as error:
